@@ -91,7 +91,7 @@ VARIANTS = [
     V( 'offsets-2N', DEVICE, "result += UINT.produce( 2 + 2 * len( offsets ) + o )\n result += reqdata", "result	       += UINT.produce( 	2 * len( offsets ) + o )\n            result	       += reqdata", fires=[ 'A-OFFSETS' ] ),
     V( 'offsets-reordered-sum', DEVICE, "result += UINT.produce( 2 + 2 * len( offsets ) + o )\n result += reqdata", "result	       += UINT.produce( 	o + len( offsets ) * 2 + 2 )\n            result	       += reqdata", silent=[ 'A-OFFSETS' ] ),
     V( 'order-reversed-dropped', DEVICE, "for r in reversed( data.multiple.request ):\n req = cls.produce( r )", "for r in data.multiple.request:\n                req		= cls.produce( r )", fires=[ 'P-ORDER' ] ),
-    V( 'each-conditional-dispatch', DEVICE, "target.request( r, addr=addr )\n data.status = 0x00", "if r.get( 'service' ): target.request( r, addr=addr )\n                data.status	= 0x00", fires=[ 'P-EACH' ] ),
+    V( 'each-conditional-dispatch', DEVICE, "try:\n target.request( r, addr=addr )\n except Exception as exc:", "try:\n                        if r.get( 'service' ): target.request( r, addr=addr )\n                    except Exception as exc:", fires=[ 'P-EACH' ] ),
     V( 'closure-run-and-posted', DEVICE, "target.parser.post_process_closure( closure )\n else:\n closure()", "target.parser.post_process_closure( closure )\n        closure()", fires=[ 'P-CLOSURE' ] ),
     V( 'forwards-key-without-port', DEVICE, "unique = addr[0],addr[1],fo.O_T.connection_ID", "unique			= addr[0],fo.O_T.connection_ID", fires=[ 'K-FORWARDS' ] ),
     V( 'forwards-key-T_O', DEVICE, "unique = addr[0],addr[1],fo.O_T.connection_ID", "unique			= addr[0],addr[1],fo.T_O.connection_ID", fires=[ 'K-FORWARDS' ] ),
@@ -255,6 +255,8 @@ VARIANTS = [
     V( 'replybit-set-before-unrecognized', DEVICE, "else:\n raise RequestUnrecognized( \"Unrecognized Service Request\" )", "else:\n                data.service   |= 0x80\n                raise RequestUnrecognized( \"Unrecognized Service Request\" )", fires=[ 'P-REPLYBIT' ] ),
     V( 'fowidth-decoder-guesses-size-class', DEVICE, "parameters = defaults.Connection( **dict( data[pathsrc], large=self.lrg ))", "parameters		= defaults.Connection( **data[pathsrc] )", fires=[ 'K-FOWIDTH' ], why='defect AL' ),
     V( 'fowidth-decoder-large-keyword', DEVICE, "parameters = defaults.Connection( **dict( data[pathsrc], large=self.lrg ))", "parameters		= defaults.Connection( large=self.lrg, **data[pathsrc] )", silent=[ 'K-FOWIDTH' ] ),
+    V( 'bundle-member-dispatch-unprotected', DEVICE, "try:\n target.request( r, addr=addr )\n except Exception as exc:", "target.request( r, addr=addr )\n                    try:\n                        pass\n                    except Exception as exc:", fires=[ 'P-EACH' ], why='defect AM' ),
+    V( 'bundle-member-parse-failure-escapes', DEVICE, "log.normal( \"%s Multiple Service Packet request %d failed to parse: %s\", target, oi, exc )", "raise", fires=[ 'P-CLOSURE' ], why='defect AM' ),
     V( 'pathstop-equivalent', DEVICE, "or not attribute #   or no Attribute desired (must return None)", "or attribute in ( False, None, 0 ) or not attribute", silent=[ 'D-PATHSTOP' ] ),
     V( 'keypass-normalised', MAIN, "def __setitem__( self, key, value ):\n super( Attribute_print, self ).__setitem__( key, value )", "def __setitem__( self, key, value ):\n            if isinstance( key, slice ):\n                key	= slice( *key.indices( len( self )))\n            super( Attribute_print, self ).__setitem__( key, value )", fires=[ 'K-KEYPASS' ] ),
     V( 'route-checks-outside-try', UCMM, "rsp,ela = client.await_response( conn, timeout=timeout )\n assert rsp, \\", "rsp,ela	= client.await_response( conn, timeout=timeout )\n                                assert True, \\", fires=[ 'P-ROUTE' ] ),
